@@ -5,6 +5,7 @@ package main
 import (
 	"fmt"
 	"math/rand"
+	"os"
 	"sort"
 	"strings"
 	"sync/atomic"
@@ -537,6 +538,9 @@ func c05Run(c *vlib.Ctx, idx int) {
 				break
 			}
 		}
+	}
+	if d := time.Since(t0); d > 20*time.Second {
+		fmt.Fprintf(os.Stderr, "C05B scenario %d (%s) slow: %s\n", idx, sc.Flavour, strings.Join(obs.Steps, " | "))
 	}
 	crashed = finishSim(c, s, id, obs)
 	if crashed {
